@@ -144,9 +144,13 @@ Proof.
   unfold raw_block.
   destruct (read_string rest) as [[data rest1] ok] eqn:Ers.
   destruct (read_string_split _ _ _ _ Ers) as [Hsplit Hok].
-  destruct ok; cbn [negb]; [|exact I].
-  assert (Hlen : (length rest1 < length rest)%nat).
-  { subst rest. rewrite app_length. specialize (Hok eq_refl). destruct data; [contradiction|cbn; lia]. }
+  assert (Hlen' : (negb ok && is_nil data)%bool = false -> (length rest1 < length rest)%nat).
+  { intros Hc. subst rest. rewrite app_length.
+    destruct ok.
+    - specialize (Hok eq_refl). destruct data; [contradiction|cbn; lia].
+    - cbn in Hc. destruct data; [discriminate|cbn; lia]. }
+  destruct (negb ok && is_nil data)%bool eqn:Ec; [exact I|].
+  pose proof (Hlen' eq_refl) as Hlen.
   destruct (trim data) as [|c d'] eqn:Et; [exact Hlen|].
   destruct (raw_decode_header (c :: d')) as [[size tag]|]; [|exact I].
   destruct (Z.eqb size 0); [split; [exact Hlen|exact I]|].
